@@ -27,13 +27,16 @@ RULE = ('random environments of 1-6 tasks (all five statuses, with and '
         'strings, numbers, numpy arrays and Dataset objects) written by '
         'write_env; faults: truncation at every byte offset of every written '
         'file (complete), empty file, deleted file, deleted directory, single '
-        'bit flips and random byte strings (seeded); histories of 2-5 writes '
+        'bit flips and random byte strings (seeded), the file path being a '
+        'directory, the output directory being a regular file, a name longer '
+        'than NAME_MAX; task names with and without path separators; histories of 2-5 writes '
         'with crashes during the write (exception from inside a payload, '
         'os._exit of a child process in the middle of pickle.dump) '
         'interleaved with reads; distinct = distinct (payload kinds, '
         'statuses, fault kind, outcome class)')
 DECIDING = ['files_written', 'truncation_points', 'reads_checked',
-            'corrupted_reads', 'histories', 'crash_during_write']
+            'corrupted_reads', 'unopenable_paths', 'histories',
+            'crash_during_write']
 ASSUMPTIONS = ['a file that is still a readable pickle of an environment '
                'after bit flips is outside "unreadable": only "no exception" '
                'is required of it',
@@ -119,7 +122,8 @@ def gen_env(rng, root, names=None, tag=0):
     from valjean.cosette.env import Env
     from valjean.cosette.task import TaskStatus
     if names is None:
-        names = [rng.choice(['t', 'task', 'run.x', 'a b'])
+        names = [rng.choice(['t', 'task', 'run.x', 'a b', 'grp/t', 'g/h/t',
+                             './t'])
                  + str(i) for i in range(rng.randint(1, 6))]
     env = Env()
     for name in names:
@@ -282,6 +286,27 @@ def damage_case(seed, idx, tier, rec):
                 if got is not None:
                     rec.count('corrupted.' + style + (
                         '.absent' if name not in got else '.present'))
+            # paths that exist but cannot be opened as a file
+            os.unlink(path)
+            os.mkdir(path)
+            unopenable(root, names, name, path, exp_wo, rec, where,
+                       'env-path-is-a-directory')
+            os.rmdir(path)
+            odir = os.path.dirname(path)
+            if not os.listdir(odir):
+                os.rmdir(odir)
+                with open(odir, 'wb') as fil:
+                    fil.write(data)
+                unopenable(root, names, name, path, exp_wo, rec, where,
+                           'output-dir-is-a-regular-file')
+                os.unlink(odir)
+                os.mkdir(odir)
+            longname = 'n' * 300
+            got = safe_read(root, names + [longname], rec, where,
+                            'name-longer-than-NAME_MAX')
+            if got is not None:
+                compare(got, exp_wo, names + [longname], rec, where,
+                        'name-longer-than-NAME_MAX')
             with open(path, 'wb') as fil:
                 fil.write(data)
             rec.seen((kinds, env[name]['status'].name, sorted(outcomes)))
@@ -292,6 +317,24 @@ def damage_case(seed, idx, tier, rec):
     finally:
         Bomb.mode = None
         shutil.rmtree(root, ignore_errors=True)
+
+
+def unopenable(root, names, name, path, exp_wo, rec, where, fault):
+    '''The file of `name` exists but open() fails with something else than
+    "no such file": still "not done", never an exception.'''
+    from valjean.cosette.env import Env
+    rec.count('unopenable_paths')
+    got = safe_read(root, names, rec, where, fault)
+    if got is not None:
+        compare(got, exp_wo, names, rec, where, fault)
+    try:
+        one = Env.from_file(path)
+        if one is not None:
+            rec.violation(f'from_file-returned-something-on-{fault}',
+                          f'Env.from_file returned {one!r}', where)
+    except Exception as err:  # pylint: disable=broad-except
+        rec.violation(f'from_file-raised-{type(err).__name__}-on-{fault}',
+                      f'Env.from_file raised {err!r} for {name}', where)
 
 
 CHILD = r'''
